@@ -31,6 +31,8 @@ type byzStrategy struct {
 	padApology bool
 	// offset: message kind -> blocks into its phase at which it is sent (0 = first block)
 	offset map[string]int64
+	// lateCheckIn: see step()
+	lateCheckIn bool
 }
 
 type byzKeyper struct {
@@ -69,6 +71,8 @@ func newByzKeyper(w *worldB, idx int, c *simkit.Chooser, victims []int) *byzKeyp
 	for _, k := range []string{"commitment", "eval", "accusation", "apology"} {
 		s.offset[k] = int64(c.Intn(3, "byz-blocks-into-phase")) // phases are at least 3 blocks long
 	}
+	s.lateCheckIn = c.Chance(250, "byz-late-check-in")
+	s.offset["check-in"] = int64(1 + c.Intn(3, "byz-check-in-blocks-after-eon-start"))
 	b.strat = s
 	return b
 }
@@ -137,7 +141,12 @@ func (b *byzKeyper) onBlocks() {
 			}
 		}
 	}
-	if !b.checked && len(b.members) > 0 {
+	// a late check-in: the keyper announces its encryption key only some blocks after the eon has
+	// started, so the others' evaluations for it wait in their databases until then
+	if !b.checked && len(b.members) > 0 && (!b.strat.lateCheckIn || (b.start != 0 && w.tmc.Height+1 >= b.start+b.strat.offset["check-in"])) {
+		if b.strat.lateCheckIn {
+			w.r.Probe("byz-late-check-in")
+		}
 		b.checked = true
 		b.submit(shmsg.NewCheckIn(simtm.DetEd25519("val-"+b.key.Name), &b.enc.PublicKey), "check-in")
 	}
